@@ -89,36 +89,57 @@ def summarise_outcomes(kind, outs, prev):
     return RecSummary(kind, consumed, raises)
 
 
-def rec_summary(prog, fi, policy=None):
+def rec_summary(prog, fi, policy=None, outer=None):
+    """Inductive summary of the recursive function fi (least fixpoint of
+    its consumed interval and exception set).  `outer`: the assumptions of
+    the interpreter that asks -- non-empty when this summary is computed
+    inside the summary computation of another function of the same strongly
+    connected component (two cycles sharing a function, e.g. field_array
+    dispatching through the table itself as well as through field_table ->
+    embedded_value).  The nested computation then takes the outer functions
+    at their current iterate, is not cached (it is only valid for that
+    iterate), and the outer iteration -- monotone in both components --
+    carries the joint fixpoint."""
     cache = prog.__dict__.setdefault('_rec_summaries', {})
     key = (fi.qualname, type(policy).__name__ if policy else 'Policy')
+    outer = dict(outer or {})
+    outer.pop(fi.qualname, None)
+    if outer:
+        return _rec_fixpoint(prog, fi, policy, outer)
     if key in cache:
         if cache[key] == 'computing':
             raise AnalysisError('nested recursion summary for ' + fi.short)
         return cache[key]
     cache[key] = 'computing'
-    kind = function_kind(fi)
-    cur = None
     try:
-        for _ in range(10):
-            it = I.Interp(prog, policy)
-            it.rec_assume = {fi.qualname: cur}
-            st = I.State({}, {}, T.Knowledge())
-            outs = it.run_function(fi, symbolic_args(fi), {}, st)
-            new = summarise_outcomes(kind, outs, cur)
-            if new is None and cur is None:
-                break
-            if new is not None and new.same(cur):
-                break
-            cur = new
-        else:
-            raise AnalysisError('recursion summary of %s did not converge' %
-                                fi.short)
+        cur = _rec_fixpoint(prog, fi, policy, {})
     finally:
         cache.pop(key, None)
+    cache[key] = cur
+    return cur
+
+
+def _rec_fixpoint(prog, fi, policy, outer):
+    kind = function_kind(fi)
+    cur = None
+    for _ in range(10):
+        it = I.Interp(prog, policy)
+        it.rec_assume = dict(outer)
+        it.rec_assume[fi.qualname] = cur
+        it.rec_inherited = frozenset(outer)
+        st = I.State({}, {}, T.Knowledge())
+        outs = it.run_function(fi, symbolic_args(fi), {}, st)
+        new = summarise_outcomes(kind, outs, cur)
+        if new is None and cur is None:
+            break
+        if new is not None and new.same(cur):
+            break
+        cur = new
+    else:
+        raise AnalysisError('recursion summary of %s did not converge' %
+                            fi.short)
     if cur is not None and cur.kind == 'decoder' and cur.consumed is None:
         cur = RecSummary(kind, (None, None), cur.raises)
-    cache[key] = cur
     return cur
 
 
